@@ -355,6 +355,17 @@ func (s *spanScreen) writeString(text string, width int, merge bool, mode TextRe
 	if width < 1 {
 		width = 1
 	}
+	if s.cursorPos.X+width > s.size.X && width > 1 {
+		// The reader never hands over more than fits on the rest of the row, but
+		// it measures the row before it waits for the data: a run that does not
+		// fit was measured against a screen that has been resized since. Hand it
+		// over in pieces that fit.
+		if head, headWidth, rest, restWidth, ok := splitRunToFit(text, s.size.X-s.cursorPos.X, mode); ok {
+			s.writeString(head, headWidth, false, mode)
+			s.writeString(rest, restWidth, false, mode)
+			return
+		}
+	}
 	if width > s.size.X {
 		// A character wider than the whole screen cannot be shown; storing it
 		// with a clamped width would make the row text wider than the row.
@@ -373,6 +384,36 @@ func (s *spanScreen) writeString(text string, width int, merge bool, mode TextRe
 	// wide character (so the outcome does not depend on how a run is cut).
 	shift := s.writeSpanAt(s.cursorPos.X, s.cursorPos.Y, sp, CRText)
 	s.moveCursor(width+shift, 0, true, true)
+}
+
+// splitRunToFit cuts a run of several characters into a head of at most limit
+// cells (at least one character; characters without a cell of their own stay
+// with the one before them) and the rest. ok is false when the run is a
+// single character.
+func splitRunToFit(text string, limit int, mode TextReadMode) (head string, headWidth int, rest string, restWidth int, ok bool) {
+	buf := []byte(text)
+	state := -1
+	cut, total := 0, 0
+	for idx := 0; idx < len(buf); {
+		_, consumed, w, newState, stepOK := stepTextCluster(buf[idx:], state, mode)
+		if !stepOK || consumed <= 0 {
+			break
+		}
+		if cut == idx && (idx == 0 || w == 0 || headWidth+w <= limit) {
+			cut = idx + consumed
+			headWidth += w
+		}
+		total += w
+		idx += consumed
+		state = newState
+	}
+	if cut == 0 || cut >= len(buf) {
+		return "", 0, "", 0, false
+	}
+	if headWidth < 1 {
+		headWidth = 1
+	}
+	return text[:cut], headWidth, text[cut:], max(total-headWidth, 1), true
 }
 
 // replaceInvalidUTF8 substitutes U+FFFD for every byte that is not part of a
